@@ -81,10 +81,16 @@ for c in cases:
         told = w.inbox_names("Heating")
         out.append("stop" if "wait" in told else ("rearm" if any(e[1] == "timer_start" for e in w.log[n0:]) else "NOTHING"))
     elif kind == "exit":
-        _, sh, now = c
+        _, sh, now, allow = c
         w.now_us = now
         H._Heating__next_start_hour = sh
-        H._Heating__set_next_start()
+        H._Heating__next_start = T0          # stale value: the exit must reschedule whatever Filtration answers
+        FakeF.allow = bool(allow)
+        machine.set_state("heating")
+        w.now_us = now - 5000000
+        H._Heating__total_duration.start()
+        w.now_us = now
+        H.on_exit_heating()
         out.append(str(us(H._Heating__next_start)))
     elif kind == "setpoint":
         _, ns, now = c
@@ -121,7 +127,7 @@ def gen_cases(rng, n, cfg):
             air = rng.choice([None, mt - 2000, mt - hm - 125, mt - hm, mt - hm + 125, mt, mt + 5000])
             cases.append(["heat", rng.random() < 0.85, sp, mt, rng.choice(temps(sp)), air])
         elif kind == "exit":
-            cases.append(["exit", rng.randint(0, 23), now])
+            cases.append(["exit", rng.randint(0, 23), now, rng.random() < 0.5])
         elif kind == "setpoint":
             cases.append(["setpoint", rng.choice([now - 1, now, now + 1, now + DAY, now - DAY]), now])
         else:
@@ -159,7 +165,7 @@ def correspondence(chk):
             _, en, sp, mt, pool, air = cs
             lines.append(f"heat {cfg[0]} {cfg[1]} {cfg[2]} {b(en)} {sp} {mt} {o(pool)} {o(air)}")
         elif cs[0] == "exit":
-            lines.append(f"exit {cs[1]} {cs[2]}")
+            lines.append(f"exit {cs[1]} {cs[2]}")  # the model reschedules whatever Filtration answers
         elif cs[0] == "setpoint":
             lines.append(f"setpoint {cs[1]} {cs[2]}")
         else:
@@ -170,7 +176,7 @@ def correspondence(chk):
     for r in real["out"]:
         k = r.split(" ")[0] if not r.lstrip("-").isdigit() else "time"
         dist[k] = dist.get(k, 0) + 1
-    chk.correspondence("Heating.do_repeat_waiting/do_repeat_heating/__set_next_start/setpoint/start_hour (REAL methods, stubbed answers, boundary temperatures, several days) vs Model/Heating.lean", len(cases), len(bad), distribution=dist, detail=bad[:5] or None)
+    chk.correspondence("Heating.do_repeat_waiting/do_repeat_heating/on_exit_heating/setpoint/start_hour (REAL methods, stubbed answers, boundary temperatures, several days) vs Model/Heating.lean", len(cases), len(bad), distribution=dist, detail=bad[:5] or None)
     chk.sample({"case": cases[0], "real": real["out"][0], "model": model[0]})
     # monitor: decide the statement's start/stop clauses directly on the real decisions
     viol = []
